@@ -61,6 +61,7 @@ type Path struct {
 	Checks          int
 	decided         map[[2]uint64]bool // conditions already fixed on this path
 	ufs             map[string][]*ufApp
+	onDecide        func(*smt.Term) // trace mode: called with every condition fixed on the path
 }
 
 // ufApp is one application of an uninterpreted function, Ackermannized: the
@@ -291,6 +292,9 @@ func (p *Path) choose(conds []*smt.Term) int {
 	}
 	p.taken = append(p.taken, k)
 	p.arity = append(p.arity, len(conds))
+	if p.onDecide != nil {
+		p.onDecide(conds[k])
+	}
 	p.assert(conds[k])
 	return k
 }
